@@ -210,7 +210,9 @@ def gen_template(rng):
     src = '<wxs module="m">%s</wxs><wxs module="w" src="./x.wxs"/>' % WXS_INLINE
     for (lst, item, index, key) in loops:
         src += '<block wx:for="{{ %s }}" wx:for-item="%s" wx:for-index="%s"%s>' % (q(lst), item, index, "" if key is None else ' wx:key="%s"' % key)
-    src += '<input model:value="{{ %s }}" bind:tap="{{ %s }}" change:prop="{{ %s }}"/>' % (q(e_model), q(e_event), q(e_change))
+    # (the bound property is usually `value`; names that look like legacy event attributes once camel-cased are two-way bindings all the same: round 12, C04-15)
+    mname = rng.choice(["value", "value", "value", "on-off", "online", "binding"])
+    src += '<input model:%s="{{ %s }}" bind:tap="{{ %s }}" change:prop="{{ %s }}"/>' % (mname, q(e_model), q(e_event), q(e_change))
     src += "</block>" * len(loops)
     return src, (loops, e_model, e_event, e_change)
 
@@ -427,7 +429,7 @@ def run(chk):
                 chk.violation("input", f"{len(got)} elements rendered, {len(exp)} expected from the list data", template=src, data=D)
             continue
         for li, (n_, (pm, pe, pc)) in enumerate(zip(got, exp)):
-            om = (n_.get("modelPaths") or {}).get("value")
+            om = (n_.get("modelPaths") or {}).get(mkey(src))
             oe = None
             for c in n_.get("log", []):
                 if c[0] == "v" and c[1] == "tap":
@@ -445,7 +447,7 @@ def run(chk):
                                       template=src, data=D, binding=what, expected=want, got=have)
             if om is not None and isinstance(om, list):
                 # get: the value at the path is the value the binding delivered
-                delivered = (n_.get("attrs") or {}).get("value", U)
+                delivered = (n_.get("attrs") or {}).get(mkey(src), U)
                 at = lookup(D, om)
                 if at is VIRTUAL:
                     chk.bump("oracle:get-skipped-not-a-data-location")
@@ -494,7 +496,7 @@ def run(chk):
         if len(got) != len(exp):
             continue        # the list itself changed shape: C06's subject
         for li, (n_, (pm, pe, pc)) in enumerate(zip(got, exp)):
-            om = (n_.get("modelPaths") or {}).get("value")
+            om = (n_.get("modelPaths") or {}).get(mkey(src))
             chk.case((src, f, how, li), nontrivial=pm is not None)
             if canon_path(pm) != canon_path(om):
                 nbad += 1
@@ -509,6 +511,13 @@ def run(chk):
     # every update, in document order
     from . import tagsem
     tagsem.stream(chk, chk.rng.fork("tagsem11"), 250 if quick else 5000, paths=True)
+
+
+def mkey(src):
+    """the property a generated template binds with `model:` (camel-cased, as the generated code names it)"""
+    m = re.search(r"model:([A-Za-z-]+)=", src)
+    nm = m.group(1) if m else "value"
+    return re.sub(r"-([a-z])", lambda x: x.group(1).upper(), nm)
 
 
 def replay(chk, path):
